@@ -879,8 +879,8 @@ class segment_if(x12_node):
                 return (True, None, None, None)
             elif self.children[0].is_element() \
                     and self.children[0].get_data_type() == 'ID' \
-                    and self.children[0].usage == 'R' \
                     and len(self.children[0].valid_codes) > 0:
+                # (required or situational: it is the element the code qualifies)
                 if qual_code in self.children[0].valid_codes and seg_data.get_value('01') == qual_code:
                     return (True, qual_code, 1, None)
                 else:
